@@ -235,6 +235,26 @@ func (m *Mux) serve(w *ResponseWriter, req *Request) {
 		return
 	}
 	w.logger.Error("no matching handler found for request and returning internal error", "op", op, "connID", w.connID, "requestID", w.requestID, "routeOp", req.routeOp)
-	resp := req.NewResponse(WithResponseCode(ResultUnwillingToPerform), WithDiagnosticMessage("No matching handler found"))
+	resp := req.NewResponse(WithApplicationCode(responseApplicationCode(req.routeOp)), WithResponseCode(ResultUnwillingToPerform), WithDiagnosticMessage("No matching handler found"))
 	_ = w.Write(resp)
+}
+
+// responseApplicationCode returns the application code of the (final) response
+// which belongs to the operation, so a client will recognise the response as
+// the answer to its request.
+func responseApplicationCode(routeOp routeOperation) int {
+	switch routeOp {
+	case bindRouteOperation:
+		return ApplicationBindResponse
+	case searchRouteOperation:
+		return ApplicationSearchResultDone
+	case modifyRouteOperation:
+		return ApplicationModifyResponse
+	case addRouteOperation:
+		return ApplicationAddResponse
+	case deleteRouteOperation:
+		return ApplicationDelResponse
+	default:
+		return ApplicationExtendedResponse
+	}
 }
